@@ -19,6 +19,10 @@ RULE = ("histories of up to 14 operations over up to 4 sessions (HTTP/1.1 and HT
         "Metrics::collect text, GET /metrics, /health-check, /other on the metrics listener with HTTP/1.1 enabled and disabled; non-trivial = every case; distinct = distinct history")
 
 
+# real sockets / real time: a verdict must persist when the case is re-run on its own (2 of 3)
+RETRY_PREFIX = "*"
+
+
 def gen_cases(rng, ctx):
     thorough = ctx["tier"] == "thorough" or ctx.get("widened")
     cases = []
